@@ -81,6 +81,7 @@ class Spec:
     name = ''
     bound = 1e2
     elementwise = False
+    zero_ok = True      # theta = 0 is a legal input (no guard in the theorem)
 
     def __init__(self, **kw):
         self.__dict__.update(kw)
@@ -155,6 +156,7 @@ class Ball(VecMap):
 
 class SphereQ(VecMap):
     name = 'sphere-quotient'; opname = 'sphq'
+    zero_ok = False
     def call(self, th): return M().to_sphere_quotient(th, self.is_real())
     def out_shape(self): return (self.n if self.is_real() else self.n // 2,)
     def checks(self, th, y, tol):
@@ -180,6 +182,7 @@ class Softmax(VecMap):
 
 class ProbSphere(Softmax):
     name = 'prob-sphere'; opname = 'psphere'
+    zero_ok = False
     def call(self, th): return M().to_discrete_probability_sphere(th)
     def checks(self, th, y, tol):
         yield 'probability:sphere:>=0', bool(np.all(y >= 0)) and not np.iscomplexobj(y), f'min {y.min()}'
@@ -203,6 +206,7 @@ def psd_checks(tag, dim, rank, is_real, y, tol):
 
 class PsdChol(MatMap):
     name = 'trace1psd-cholesky'
+    zero_ok = True
     def nparam(self):
         N0 = self.rank * (2 * self.dim - self.rank + 1) // 2
         return N0 if self.is_real() else 2 * N0 - self.rank
@@ -215,6 +219,7 @@ class PsdChol(MatMap):
 
 class PsdEns(PsdChol):
     name = 'trace1psd-ensemble'
+    zero_ok = False
     def nparam(self): return self.rank + (1 if self.is_real() else 2) * self.dim * self.rank
     def call(self, th): return M().to_trace1_psd_ensemble(th, self.dim, self.rank)
     def op(self, th): return f'C01 psdens {self.dim} {self.rank} {self.rc} {tbits(th)}'
@@ -224,6 +229,8 @@ class PsdEns(PsdChol):
 
 class SymMat(MatMap):
     name = 'symmetric'
+    @property
+    def zero_ok(self): return not self.n1
     def key(self): return f'symmetric-{self.rc}-d{self.dim}-t{int(self.t0)}-n{int(self.n1)}'
     def nparam(self):
         return (self.dim * (self.dim + 1) // 2 if self.is_real() else self.dim * self.dim) - int(self.t0)
@@ -292,6 +299,7 @@ def stiefel_checks(tag, is_real, y, tol):
 
 class StPolar(MatMap):
     name = 'stiefel-polar'
+    zero_ok = False
     def nparam(self): return (1 if self.is_real() else 2) * self.dim * self.rank
     def call(self, th): return M().to_stiefel_polar(th, self.dim, self.rank)
     def op(self, th): return f'C01 stpolar {self.dim} {self.rank} {self.rc} {tbits(th)}'
@@ -394,7 +402,9 @@ def draw_theta(rng, spec, shape, f32):
     B = spec.bound_for(f32)
     cnt = int(np.prod(shape)) if shape else 1
     rows = []
-    for _ in range(cnt):
+    for k in range(cnt):
+        if spec.zero_ok and k == 0 and rng.integers(0, 6) == 0 and spec.wellcond(np.zeros(n), f32):
+            rows.append(np.zeros(n)); continue
         for attempt in range(50):
             mode = rng.integers(0, 3)
             if mode == 0:
@@ -737,6 +747,7 @@ def probe(ctx):
     probe_constraints(ctx, rng)
     probe_modules(ctx, rng)
     probe_compose(ctx, rng)
+    ctx.extra['statements_not_proved'] = ['Numqi.C01.soExp_complex_det_one.Statement (det(exp A)=1 for traceless skew-Hermitian A: needs det∘exp = exp∘tr, absent from Mathlib; proved fragment soExp_complex_det_one_partial: |det| = 1; det=1 is probed numerically)']
     ctx.extra['probe_tolerance'] = f'constraints: {PROBE64} (float64), {PROBE32} (float32); exp/cayley unitarity scaled by max(1,|theta|_max*dim/10)*order'
     ctx.assumptions.append('to_stiefel_euler asserts theta.ndim <= 2: the (k,l) batch shape is excluded for that map (the guard itself is tied)')
     ctx.assumptions.append('inputs of stiefel polar/qr/choleskyL are restricted to pre-factor matrices with condition number <= 1e3 (<= 20 for float32 parameters): the orthonormalisation error of LAPACK grows with cond^2*eps')
@@ -758,9 +769,16 @@ def search(ctx, hints):
             th = np.array([unbits(x) for x in t.split(';')])
         except Exception:
             continue
-        y = guarded(lambda: to_np(spec.call(th)))
-        if isinstance(y, str):
-            ctx.fail(f'{spec.name}:raises', f'{spec.key()} raised {y}', replay_of(spec, 'np', False, (), th)); continue
-        for key, ok, what in spec.checks(th, y.astype(np.complex128 if np.iscomplexobj(y) else np.float64), PROBE64):
-            if not ok:
-                ctx.fail(key, f'{spec.key()}: {what}', replay_of(spec, 'np', False, (), th))
+        import torch
+        cands = [th] + ([np.zeros_like(th)] if spec.zero_ok else [])
+        for t in cands:
+            for backend in ('np', 'torch'):
+                x = t if backend == 'np' else torch.tensor(t)
+                y = guarded(lambda: to_np(spec.call(x)))
+                if isinstance(y, str):
+                    ctx.fail(f'{spec.name}:raises', f'{spec.key()} raised {y} ({backend})', replay_of(spec, backend, False, (), t)); continue
+                if not np.all(np.isfinite(y)):
+                    ctx.fail(f'{spec.name}:finite', f'{spec.key()} returned non-finite values ({backend})', replay_of(spec, backend, False, (), t)); continue
+                for key, ok, what in spec.checks(t, y.astype(np.complex128 if np.iscomplexobj(y) else np.float64), PROBE64):
+                    if not ok:
+                        ctx.fail(key, f'{spec.key()} ({backend}): {what}', replay_of(spec, backend, False, (), t))
